@@ -5,7 +5,7 @@
     constraints; no reader, no guards-then-unchecked-reads, no failure outcome.
     The equality is on complete results: the accepted value and the remaining
     input, or the full error list. *)
-From RL Require Import Model.Decode Spec.SpecDecode Proofs.RefineAvp Proofs.RefineDecode Proofs.Framing Proofs.Inert Proofs.Transport.
+From RL Require Import Model.Decode Spec.SpecDecode Proofs.RefineAvp Proofs.RefineDecode Proofs.Framing Proofs.Inert Proofs.Transport Proofs.Utf8Facts.
 
 Theorem C05_decode_refines_spec : forall o b, bytes_ok b = true ->
   exists x, m_decode o b = Val x /\ obs_of x = s_decode o b.
@@ -25,6 +25,12 @@ Proof. exact model_accepts_iff_spec. Qed.
 Theorem C05_rejects_iff : forall o b es, bytes_ok b = true ->
   ((exists rest, m_decode o b = Val (Err es, rest)) <-> s_decode o b = Err es).
 Proof. exact model_rejects_iff_spec. Qed.
+
+(** the UTF-8 constraint of the specification is RFC 3629: exactly the concatenations of the
+    shortest-form encodings of Unicode scalar values *)
+Theorem C05_utf8_is_rfc3629 : forall l,
+  utf8_valid l = true <-> exists cps, forallb scalar cps = true /\ l = flat_map enc_cp cps.
+Proof. exact utf8_valid_iff. Qed.
 
 (** Nothing outside the fields the specification names influences the result. *)
 Theorem C05_avp_header_bits_inert : forall o1 o1' rest,
@@ -67,3 +73,4 @@ Print Assumptions C05_reserved_octets_inert.
 Print Assumptions C05_vendor_payload_inert.
 Print Assumptions C05_accepts_iff.
 Print Assumptions C05_rejects_iff.
+Print Assumptions C05_utf8_is_rfc3629.
